@@ -84,13 +84,64 @@ def gen_population(rng):
     return {"goals": goals, "pop": pop, "sols": sols, "coins": coins}
 
 
-def run_ranking(case):
-    """Returns (fronts as lists of Ind, coins drawn, objects)."""
+def make_objs(case):
+    objs = [Ind(k, codes, ln) for k, codes, ln in case["sols"]]
+    for o, r in zip(objs, case.get("ranks") or []):
+        o.rank = r                                   # stale attribute from an earlier round / a clone
+    for o, d in zip(objs, case.get("dists") or []):
+        o.distance = d
+    return objs
+
+
+def preset_attrs(rng, case):
+    """Arbitrary incoming rank/distance attributes (they are outputs only)."""
+    n = len(case["sols"])
+    case["ranks"] = [rng.choice([-1, 0, 0, 0, 1, 2, 5]) for _ in range(n)]
+    case["dists"] = [rng.choice([-1.0, 0, 0.0, 0.5, 1.0, 7.0]) for _ in range(n)]
+    return case
+
+
+def next_round(rng, case, objs):
+    """The next generation ranks the same objects again: some goals got covered (the goal set changes),
+    clones / offspring of ranked individuals join (clone() copies rank and distance), and everybody
+    carries the rank and distance the previous round left."""
+    width = len(case["sols"][0][1])
+    objs = list(objs)
+    nxt = max(o.key for o in objs) + 1
+    for _ in range(rng.choice([0, 1, 2, 4])):
+        parent = rng.choice(objs)
+        if rng.random() < 0.5:
+            child = Ind(parent.key, list(parent.codes), parent.len)                 # unchanged clone (== parent)
+        else:
+            child = Ind(nxt, [max(0, c + rng.choice([-1, 0, 0, 1])) for c in parent.codes], max(1, parent.len + rng.choice([-1, 0, 1])))
+            nxt += 1
+        child.rank, child.distance = parent.rank, parent.distance
+        objs.append(child)
+    if len(objs) > 64:
+        objs = objs[:64]
+    if rng.random() < 0.3:
+        rng.shuffle(objs)                                                           # survivors are re-ordered by evolve
+    goals = [g for g in case["goals"] if rng.random() < 0.6]                        # the others got covered
+    if rng.random() < 0.3:
+        goals = list(dict.fromkeys(goals + [rng.randrange(width)]))                 # DynaMOSA: new goals become current
+    n = len(objs)
+    new = {"goals": goals, "pop": rng.choice([case["pop"], case["pop"], n, 2 * n, 100]),
+           "sols": [(o.key, list(o.codes), o.len) for o in objs],
+           "coins": [rng.random() < 0.5 for _ in range(len(goals) * n + 1)],
+           "ranks": [o.rank for o in objs], "dists": [o.distance for o in objs]}
+    return new, objs
+
+
+def run_ranking(case, objs=None):
+    """Returns (fronts as lists of Ind, coins drawn, objects, goals).  `objs`: rank these very objects
+    (they carry whatever rank/distance earlier rounds left); otherwise fresh objects are created and
+    given the stale attributes recorded in the case."""
     import pynguin.configuration as config
     from pynguin.ga.operators.ranking import RankBasedPreferenceSorting
     from pynguin.utils import randomness
 
-    objs = [Ind(k, codes, ln) for k, codes, ln in case["sols"]]
+    if objs is None:
+        objs = make_objs(case)
     goals = mk_goals(case["goals"])
     drawn = [0]
     coins = case["coins"]
@@ -152,14 +203,26 @@ def oracle_ranking(case, fronts, objs):
             return (sig, f"front {i} = {sorted(x.key for x in fr)} but the non-dominated individuals among the "
                          f"{len(rest)} not yet ranked are {sorted(x.key for x in nd)}")
         rest = multiset_minus(rest, fr)
+    # the fronts partition the population: nobody twice, nobody foreign, and nobody left out unless
+    # the configured population was already filled (the only reason the sorting loop may stop early)
+    # (equal chromosomes are interchangeable for list.remove / OrderedSet, so this is about the multiset of == classes)
+    from collections import Counter
+    got = Counter(x.key for fr in fronts for x in fr)
+    have = Counter(o.key for o in objs)
+    if any(got[k] > have.get(k, 0) for k in got):
+        return ("ranking:fronts-not-a-partition", "an individual appears in two fronts or a front holds a foreign individual")
+    ranked = sum(got.values())
+    if got != have and ranked < case["pop"]:
+        lost = sorted((have - got).elements())
+        return ("ranking:fronts-not-a-partition",
+                f"individuals {lost} appear in no front although only {ranked} < population {case['pop']} individuals are ranked "
+                f"(incoming rank attributes: {case.get('ranks')})")
     return None
 
 
 def run_crowding(front_objs, goals):
     from pynguin.ga.operators.ranking import fast_epsilon_dominance_assignment
-    for o in front_objs:
-        o.distance = -1.0
-    fast_epsilon_dominance_assignment(front_objs, goals)
+    fast_epsilon_dominance_assignment(front_objs, goals)       # distances are stale on entry
     return [o.distance for o in front_objs]
 
 
@@ -298,6 +361,9 @@ def shrink_ranking(case, sig):
         changed = False
         for i in range(len(case["sols"])):
             c2 = dict(case, sols=case["sols"][:i] + case["sols"][i + 1:])
+            for attr in ("ranks", "dists"):
+                if case.get(attr):
+                    c2[attr] = case[attr][:i] + case[attr][i + 1:]
             if c2["sols"] and fails(c2):
                 case, changed = c2, True
                 break
@@ -354,18 +420,28 @@ def run(ctx: vlib.Ctx):
         ctx.case_seen(("cmp", x, y), nontrivial=False)
 
     # ---- ranking + crowding ----------------------------------------------------------------
-    n_rank = 250 if ctx.quick else 4000
+    n_rank = 120 if ctx.quick else 1800
     rank_cases = [c["case"] for c in corpus if c["kind"] == "ranking"]
     n_corpus_rank = len(rank_cases)
     shrunk: set = set()
     ctx.log("comparator cases done")
-    for _ in range(n_rank):
-        rank_cases.append(gen_population(rng))
+    for k in range(n_rank):
+        c0 = gen_population(rng)
+        rank_cases.append(preset_attrs(rng, c0) if k % 2 else c0)
+    rounds = []                                  # (case, objects to re-rank or None)
     for case in rank_cases:
-        fronts, drawn, objs, goals = run_ranking(case)
+        rounds.append((case, None, 3))
+    qi = 0
+    while qi < len(rounds):
+        case, objs_in, more = rounds[qi]
+        qi += 1
+        fronts, drawn, objs, goals = run_ranking(case, objs_in)
+        ctx.count("rank:round-1" if objs_in is None else "rank:later-round-on-same-objects")
+        if case.get("ranks") and any(r == 0 for r in case["ranks"]):
+            ctx.count("rank:with-stale-rank-0")
         obs = [[x.key for x in fr] for fr in fronts]
         full = bool(fronts) and len(fronts[0]) >= case["pop"]
-        ctx.case_seen(("rank", case["goals"], case["pop"], case["sols"], case["coins"][:drawn]),
+        ctx.case_seen(("rank", case["goals"], case["pop"], case["sols"], case["coins"][:drawn], case.get("ranks")),
                       nontrivial=len(case["sols"]) > 1)
         ctx.count("rank:size<=4" if len(case["sols"]) <= 4 else ("rank:size<=20" if len(case["sols"]) <= 20 else "rank:size<=64"))
         ctx.count(f"rank:fronts={min(len(fronts), 6)}{'+' if len(fronts) >= 6 else ''}")
@@ -411,6 +487,9 @@ def run(ctx: vlib.Ctx):
                 recs.append(("crowd", {"goals": case["goals"], "front": [(o.key, o.codes, o.len) for o in fr], "impl_distances": ds}))
                 ctx.case_seen(("crowd", case["goals"], [(o.key, o.codes) for o in fr]), nontrivial=n > 1 and bool(case["goals"]))
                 ctx.count("crowd:some-positive" if any(nums) else "crowd:all-zero")
+        if more > 1 and case["sols"] and rng.random() < 0.8:
+            nc, nobjs = next_round(rng, case, objs)
+            rounds.append((nc, nobjs, more - 1))
     ctx.log("ranking/crowding cases done")
     # ---- rank selection ----------------------------------------------------------------------
     sel = [(c["n"], float.fromhex(c["bias"]), [float.fromhex(c["r"])]) for c in corpus if c["kind"] == "select"]
